@@ -88,6 +88,9 @@ type c16Case struct {
 	// FailFirst: the analysis of the first fan fails part-way (its device refuses PWM writes from the RPM-curve phase on,
 	// taking 100 ms to say so); the other fans are queued behind it
 	FailFirst bool `json:"failFirst,omitempty"`
+	// CancelEarly: the stop request (context cancellation, what SIGTERM does) arrives while the first fan is being
+	// analysed and the others wait for their turn; analyses that still take place afterwards are serial all the same
+	CancelEarly bool `json:"cancelEarly,omitempty"`
 }
 
 func (c *c16Case) cfgMap(i int) bool { return i < len(c.CfgMap) && c.CfgMap[i] }
@@ -298,6 +301,18 @@ func runC16(ctx *Ctx, c *c16Case) (intervals []c16Interval, ok bool) {
 			}
 		}(i)
 	}
+	if c.CancelEarly {
+		for t0 := time.Now(); time.Since(t0) < 30*time.Second; time.Sleep(time.Millisecond) {
+			fmu.Lock()
+			began := first[0] != 0
+			fmu.Unlock()
+			if began {
+				break
+			}
+		}
+		time.Sleep(40 * time.Millisecond)
+		cancel()
+	}
 	// wait until every fan's RPM curve was stored (logical condition, generous limit)
 	deadline := time.Now().Add(90 * time.Second)
 	for time.Now().Before(deadline) {
@@ -389,6 +404,18 @@ func genC16(r *rand.Rand) *c16Case {
 	}
 	c.OptionVia = pick(r, "", "", "yaml", "env")
 	c.Scraped = r.Intn(2) == 0
+	if r.Intn(5) == 0 {
+		// hwmon fans started together through Run(); the stop request comes during the first analysis
+		c.Kinds = nil
+		for range c.Levels {
+			c.Kinds = append(c.Kinds, "hwmon")
+		}
+		for i := range c.DelaysMs {
+			c.DelaysMs[i] = i * 15
+		}
+		c.ViaRun, c.CancelEarly, c.Scraped = true, true, false
+		return c
+	}
 	if r.Intn(4) == 0 {
 		// three hwmon fans, the first one's analysis fails while the two others wait
 		c.Levels, c.Kinds, c.DelaysMs = []int{3, pick(r, 3, 4), pick(r, 3, 4)}, []string{"hwmon", "hwmon", "hwmon"}, []int{0, 20 + r.Intn(20), 50 + r.Intn(30)}
@@ -428,6 +455,9 @@ func init() {
 			}
 			if c.FailFirst {
 				class += ":first-analysis-fails"
+			}
+			if c.CancelEarly {
+				class += ":stop-request-during-the-first-analysis"
 			}
 			if c.OptionVia != "" {
 				class += ":option-via-" + c.OptionVia
